@@ -165,6 +165,11 @@ static void modeNumbers(int argc, char** argv, Rng& rng)
       numberCalls(s, dec, sci, cd);
     }
   }
+  // long digit strings with small exponents (values far outside int / long long)
+  {
+    Codec cd0 = numberCodec('.', 'e');
+    for (const auto& s : longDigitNumbers()) numberCalls(s, '.', 'e', cd0);
+  }
   // formatting then parsing: ints
   Codec cd = numberCodec('.', 'e');
   std::vector<long> ints;
